@@ -6,30 +6,36 @@ use common::{Glue, GlueOrder, Scaled};
 use reftex::kp;
 use serde_json::{json, Value};
 
-/// Harness `FontRepo`: five characters whose (width, height, depth) are small multiples of `unit`.
+/// Harness `FontRepo`: three fonts whose (width, height, depth) are small multiples of `unit`.
+/// Font 0 and font 1 give *different* metrics to the same characters; font 2 has only `b`
+/// (`a`, `f`, ... are missing there: the lookup returns None).
 #[derive(Clone, Copy)]
 pub struct Font {
     pub unit: i32,
 }
-pub fn metrics_units(c: char) -> Option<(i32, i32, i32)> {
-    Some(match c {
-        'a' => (5, 7, 1),
-        'b' => (3, 4, 2),
-        'c' => (2, 3, 0),
-        '-' => (1, 2, 0),
-        'f' => (6, 8, 0),
+pub fn metrics_units(c: char, font: u32) -> Option<(i32, i32, i32)> {
+    Some(match (font, c) {
+        (0, 'a') => (5, 7, 1),
+        (0, 'b') => (3, 4, 2),
+        (0, 'c') => (2, 3, 0),
+        (0, '-') => (1, 2, 0),
+        (0, 'f') => (6, 8, 0),
+        (1, 'a') => (7, 9, 3),
+        (1, 'b') => (2, 5, 0),
+        (1, 'f') => (8, 3, 4),
+        (2, 'b') => (4, 2, 5),
         _ => return None,
     })
 }
 impl boxworks::FontRepo for Font {
-    fn width(&self, c: char, _f: u32) -> Option<Scaled> {
-        metrics_units(c).map(|m| Scaled(m.0 * self.unit))
+    fn width(&self, c: char, f: u32) -> Option<Scaled> {
+        metrics_units(c, f).map(|m| Scaled(m.0 * self.unit))
     }
-    fn height(&self, c: char, _f: u32) -> Option<Scaled> {
-        metrics_units(c).map(|m| Scaled(m.1 * self.unit))
+    fn height(&self, c: char, f: u32) -> Option<Scaled> {
+        metrics_units(c, f).map(|m| Scaled(m.1 * self.unit))
     }
-    fn depth(&self, c: char, _f: u32) -> Option<Scaled> {
-        metrics_units(c).map(|m| Scaled(m.2 * self.unit))
+    fn depth(&self, c: char, f: u32) -> Option<Scaled> {
+        metrics_units(c, f).map(|m| Scaled(m.2 * self.unit))
     }
 }
 
@@ -61,15 +67,16 @@ fn dim(x: Scaled) -> i64 {
     }
 }
 
-fn disc_elem(e: &ds::DiscretionaryElem, fr: &dyn Fn(char) -> Option<(i64, i64, i64)>) -> Result<kp::Node, String> {
+fn disc_elem(e: &ds::DiscretionaryElem, fr: &dyn Fn(char, u32) -> Option<(i64, i64, i64)>) -> Result<kp::Node, String> {
     to_node(&ds::Horizontal::from(e.clone()), fr)
 }
 
-pub fn to_node(n: &ds::Horizontal, fr: &dyn Fn(char) -> Option<(i64, i64, i64)>) -> Result<kp::Node, String> {
+pub fn to_node(n: &ds::Horizontal, fr: &dyn Fn(char, u32) -> Option<(i64, i64, i64)>) -> Result<kp::Node, String> {
     use ds::Horizontal as H;
     Ok(match n {
-        H::Char(ds::Char { char, .. }) | H::Ligature(ds::Ligature { char, .. }) => {
-            let (w, h, d) = fr(*char).ok_or_else(|| format!("character {char:?} is not in the font"))?;
+        // §654: the metrics are those of (font, character)
+        H::Char(ds::Char { char, font }) | H::Ligature(ds::Ligature { char, font, .. }) => {
+            let (w, h, d) = fr(*char, *font).ok_or_else(|| format!("character {char:?} is not in font {font}"))?;
             kp::Node::Char { w, h, d }
         }
         H::HBox(b) => kp::Node::Box { w: b.width.0 as i64, h: b.height.0 as i64, d: b.depth.0 as i64, shift: b.shift_amount.0 as i64 },
@@ -89,18 +96,37 @@ pub fn to_node(n: &ds::Horizontal, fr: &dyn Fn(char) -> Option<(i64, i64, i64)>)
     })
 }
 
-pub fn to_model(list: &[ds::Horizontal], fr: &dyn Fn(char) -> Option<(i64, i64, i64)>) -> Result<Vec<kp::Node>, String> {
+pub fn to_model(list: &[ds::Horizontal], fr: &dyn Fn(char, u32) -> Option<(i64, i64, i64)>) -> Result<Vec<kp::Node>, String> {
     list.iter().map(|n| to_node(n, fr)).collect()
 }
 
-pub fn font_fn(unit: i32) -> impl Fn(char) -> Option<(i64, i64, i64)> {
-    move |c| metrics_units(c).map(|m| ((m.0 * unit) as i64, (m.1 * unit) as i64, (m.2 * unit) as i64))
+/// The same, except that a character (or ligature) node whose character is missing from its font is
+/// left out: TeX never builds such a node (`new_character` §582 returns null), the crate's `pack`
+/// passes over it.
+pub fn to_model_drop_missing(list: &[ds::Horizontal], fr: &dyn Fn(char, u32) -> Option<(i64, i64, i64)>) -> Result<Vec<kp::Node>, String> {
+    list.iter()
+        .filter(|n| match n {
+            ds::Horizontal::Char(ds::Char { char, font }) | ds::Horizontal::Ligature(ds::Ligature { char, font, .. }) => fr(*char, *font).is_some(),
+            _ => true,
+        })
+        .map(|n| to_node(n, fr))
+        .collect()
+}
+
+pub fn font_fn(unit: i32) -> impl Fn(char, u32) -> Option<(i64, i64, i64)> {
+    move |c, f| metrics_units(c, f).map(|m| ((m.0 * unit) as i64, (m.1 * unit) as i64, (m.2 * unit) as i64))
 }
 
 // ---------------------------------------------------------------------------- constructors
 
 pub fn ch(c: char) -> ds::Horizontal {
     ds::Char { char: c, font: 0 }.into()
+}
+pub fn chf(c: char, font: u32) -> ds::Horizontal {
+    ds::Char { char: c, font }.into()
+}
+pub fn ligf(c: char, orig: &str, font: u32) -> ds::Horizontal {
+    ds::Ligature { char: c, font, original_chars: orig.into(), includes_left_boundary: false, includes_right_boundary: false }.into()
 }
 pub fn lig(c: char, orig: &str) -> ds::Horizontal {
     ds::Ligature { char: c, font: 0, original_chars: orig.into(), includes_left_boundary: false, includes_right_boundary: false }.into()
@@ -144,8 +170,8 @@ fn kind_name(k: ds::KernKind) -> &'static str {
 pub fn node_json(n: &ds::Horizontal) -> Value {
     use ds::Horizontal as H;
     match n {
-        H::Char(c) => json!({"char": c.char.to_string()}),
-        H::Ligature(l) => json!({"lig": l.char.to_string(), "orig": &*l.original_chars}),
+        H::Char(c) => json!({"char": c.char.to_string(), "font": c.font}),
+        H::Ligature(l) => json!({"lig": l.char.to_string(), "orig": &*l.original_chars, "font": l.font}),
         H::HBox(b) => json!({"hbox": [b.height.0, b.width.0, b.depth.0, b.shift_amount.0]}),
         H::VBox(b) => json!({"vbox": [b.height.0, b.width.0, b.depth.0, b.shift_amount.0]}),
         H::Rule(r) => json!({"rule": [r.height.0, r.width.0, r.depth.0]}),
@@ -173,11 +199,12 @@ fn first_char(v: &Value) -> char {
 
 pub fn node_from_json(v: &Value) -> Option<ds::Horizontal> {
     let o = v.as_object()?;
+    let font = o.get("font").and_then(|f| f.as_u64()).unwrap_or(0) as u32;
     if let Some(c) = o.get("char") {
-        return Some(ch(first_char(c)));
+        return Some(chf(first_char(c), font));
     }
     if let Some(c) = o.get("lig") {
-        return Some(lig(first_char(c), o.get("orig").and_then(|s| s.as_str()).unwrap_or("")));
+        return Some(ligf(first_char(c), o.get("orig").and_then(|s| s.as_str()).unwrap_or(""), font));
     }
     if let Some(b) = o.get("hbox") {
         let b = i32s(b);
